@@ -62,6 +62,75 @@ fn gamma(a: Decimal) -> Option<Decimal> {
     }
 }
 
+/// Double precision estimate of the principal branch of the Lambert W function (x >= -1/e).
+fn lambert_w_estimate(x: f64) -> f64 {
+    if x.is_nan() || x == 0.0 || x == f64::INFINITY {
+        return x;
+    }
+    let mut w = if x < -0.25 {
+        // series around the branch point -1/e in p = sqrt(2 (e x + 1))
+        let p = (2.0 * (std::f64::consts::E * x + 1.0)).max(0.0).sqrt();
+        -1.0 + p - p * p / 3.0 + 11.0 / 72.0 * p * p * p
+    } else if x < 3.0 {
+        let l = (1.0 + x).ln();
+        l * (1.0 - (1.0 + l).ln() / (2.0 + l))
+    } else {
+        let l1 = x.ln();
+        let l2 = l1.ln();
+        l1 - l2 + l2 / l1
+    };
+    for _ in 0..64 {
+        #[cfg(feature = "verif_hooks")]
+        crate::verif_hooks::tick(crate::verif_hooks::Point::EvalLoop);
+        if w <= -1.0 {
+            return -1.0;
+        }
+        let exp_w = w.exp();
+        let f = w * exp_w - x;
+        let step = f / (exp_w * (w + 1.0) - (w + 2.0) * f / (2.0 * w + 2.0));
+        if !step.is_finite() {
+            break;
+        }
+        w -= step;
+        if step.abs() <= 1e-16 * w.abs() {
+            break;
+        }
+    }
+    w
+}
+
+/// Principal branch of the Lambert W function: the double precision estimate refined by
+/// Halley's iteration in Decimal arithmetic.
+fn lambert_w(x: Decimal) -> Option<Decimal> {
+    let mut w = Decimal::from_f64(lambert_w_estimate(x.to_f64()?))?;
+    for _ in 0..8 {
+        #[cfg(feature = "verif_hooks")]
+        crate::verif_hooks::tick(crate::verif_hooks::Point::EvalLoop);
+        let step = w.checked_exp().and_then(|exp_w| {
+            let f = w.checked_mul(exp_w)?.checked_sub(x)?;
+            let correction = (w + Decimal::new(2, 0))
+                .checked_mul(f)?
+                .checked_div(Decimal::new(2, 0) * w + Decimal::new(2, 0))?;
+            let slope = exp_w
+                .checked_mul(w + Decimal::new(1, 0))?
+                .checked_sub(correction)?;
+            f.checked_div(slope)
+        });
+        match step {
+            // close to the branch point or to Decimal::MAX the correction is not computable:
+            // keep the estimate
+            None => break,
+            Some(step) => {
+                w -= step;
+                if step.abs() <= Decimal::new(1, 27) {
+                    break;
+                }
+            }
+        }
+    }
+    Some(w)
+}
+
 pub fn eval(expr: Node) -> Result<Decimal, Box<dyn error::Error>> {
     #[cfg(feature = "verif_hooks")]
     crate::verif_hooks::tick(crate::verif_hooks::Point::EvalEntry);
@@ -144,21 +213,7 @@ pub fn eval(expr: Node) -> Result<Decimal, Box<dyn error::Error>> {
             if sub_expr < -Decimal::new(-1, 0).exp() {
                 return Err("The Lambert W function is not defined for {}.".into());
             }
-            let iterations = (Decimal::new(4, 0))
-                .max((sub_expr.log10() / Decimal::new(3, 0)).ceil())
-                .to_i32()
-                .unwrap_or(4);
-            let mut w = Decimal::ZERO;
-            for _ in 0..iterations {
-                #[cfg(feature = "verif_hooks")]
-                crate::verif_hooks::tick(crate::verif_hooks::Point::EvalLoop);
-                let exp_w = w.exp();
-                w -= (w * exp_w - sub_expr)
-                    / (exp_w * (w + Decimal::new(1, 0))
-                        - (w + Decimal::new(2, 0)) * (w * exp_w - sub_expr)
-                            / (Decimal::new(2, 0) * w + Decimal::new(2, 0)));
-            }
-            Ok(w)
+            lambert_w(sub_expr).ok_or_else(|| "Decimal overflow in the Lambert W function".into())
         }
         ILog(expr1, expr2) => {
             let mut n = eval(*expr1)?;
